@@ -764,10 +764,84 @@ func linWalk(paths []linPath, list []ast.Stmt, visit func(p linPath, st ast.Stmt
 					collect(x.Post)
 				}
 				head := linPath{env: p.env.clone(), sys: append(linSys{}, p.sys...)}
+				// variables stepped together — each changed by exactly one unconditional x++ / x-- at the top level of the
+				// body (or in the post statement) — keep their pairwise differences: an inductive invariant of the loop
+				steps := map[types.Object]int64{}
+				nupd := map[types.Object]int{}
+				countUpd := func(n ast.Node) {
+					if n == nil {
+						return
+					}
+					ast.Inspect(n, func(m ast.Node) bool {
+						switch y := m.(type) {
+						case *ast.AssignStmt:
+							for _, l := range y.Lhs {
+								if id, ok := ast.Unparen(l).(*ast.Ident); ok {
+									if o := p.env.info.ObjectOf(id); o != nil {
+										nupd[o]++
+									}
+								}
+							}
+						case *ast.IncDecStmt:
+							if id, ok := ast.Unparen(y.X).(*ast.Ident); ok {
+								if o := p.env.info.ObjectOf(id); o != nil {
+									nupd[o]++
+								}
+							}
+						}
+						return true
+					})
+				}
+				countUpd(x.Body)
+				countUpd(x.Post)
+				top := append([]ast.Stmt{}, x.Body.List...)
+				if x.Post != nil {
+					top = append(top, x.Post)
+				}
+				for _, st := range top {
+					if ids, ok := st.(*ast.IncDecStmt); ok {
+						if id, ok := ast.Unparen(ids.X).(*ast.Ident); ok {
+							if o := p.env.info.ObjectOf(id); o != nil && nupd[o] == 1 {
+								if ids.Tok == token.INC {
+									steps[o] = 1
+								} else {
+									steps[o] = -1
+								}
+							}
+						}
+					}
+				}
+				// a 'continue' or a labelled jump could skip a step: give up the invariant then
+				ast.Inspect(x.Body, func(m ast.Node) bool {
+					if br, ok := m.(*ast.BranchStmt); ok && (br.Tok == token.CONTINUE || br.Tok == token.GOTO) {
+						steps = map[types.Object]int64{}
+					}
+					return true
+				})
+				old := map[types.Object]linForm{}
+				for o := range steps {
+					if f, ok := p.env.vars[o]; ok {
+						old[o] = f
+					}
+				}
 				for o := range havoc {
 					a := o.Name() + "@loop" + itoaSigned(int64(x.Pos()))
 					head.env.atoms[a] = true
 					head.env.vars[o] = lfAtom(a)
+				}
+				var stepped []types.Object
+				for o := range old {
+					stepped = append(stepped, o)
+				}
+				sort.Slice(stepped, func(i, j int) bool { return stepped[i].Pos() < stepped[j].Pos() })
+				for i := 0; i+1 < len(stepped); i++ {
+					o1, o2 := stepped[i], stepped[i+1]
+					if steps[o1] != steps[o2] {
+						continue
+					}
+					// new1 - new2 == old1 - old2
+					d := head.env.vars[o1].add(head.env.vars[o2], -1).add(old[o1], -1).add(old[o2], 1)
+					head.sys = append(head.sys, linLE(d, lfConst(0)), linLE(lfConst(0), d))
 				}
 				if x.Cond != nil {
 					head.env.cur = head.sys
